@@ -1250,6 +1250,13 @@ func (s *sim) epilogue() {
 			s.opView()
 		case s.outstandingKind() == tkCommitWait && s.idle():
 			s.opFire()
+		case len(s.mm.hcDue) > 0 && s.idle():
+			// The mirror has closed a HeightCommitted channel. For a machine that the mirror
+			// left more than a height behind (its jump-ahead view was replaced by one of a
+			// later height, which the view manager never hands out) this signal is the only
+			// thing it will still get; outside commit wait that is the open finding C08-A16,
+			// and the refused step marks the run as a dead end.
+			s.opHC()
 		default:
 			return
 		}
